@@ -238,7 +238,9 @@ def _gen_op(rnd, rc, hints, fcs, packages, flavour="sim"):
 
 def generate(seed, tier="quick"):
     rnd = rng(seed, "c12")
-    rc, hints, fcs = key_universe(rnd, rnd.randint(2, 5), rnd.randint(1, 3), rnd.randint(1, 3))
+    big = tier == "thorough" and seed % 4 == 0  # deeper bounds for a quarter of the thorough runs
+    rc, hints, fcs = key_universe(rnd, rnd.randint(2, 9 if big else 5), rnd.randint(1, 4 if big else 3),
+                                  rnd.randint(1, 5 if big else 3))
     flavour = "cer" if rnd.random() < 0.25 else "sim"
     world = {
         "flavour": flavour,
@@ -251,7 +253,7 @@ def generate(seed, tier="quick"):
     }
     profile = rnd.choice([p for p in PROFILES if p != "zero"] * 4 + ["zero"])
     package_kinds = {f"{rnd.randint(1, 99)}P": "rc" for _ in range(rnd.choice([0, 1, 2, 2]))}
-    n_requests = rnd.choice([1, 1, 2, 2, 3, 4])
+    n_requests = rnd.choice([2, 3, 4, 5, 6, 8] if big else [1, 1, 2, 2, 3, 4])
     requests = []
     for index in range(n_requests):
         rid = f"r{index}"
